@@ -24,7 +24,7 @@ func ensureEnv() {
 		}
 	}
 	os.Unsetenv("GOROOT")
-	for k, v := range map[string]string{"GOTOOLCHAIN": "local", "GOPROXY": "off", "GOSUMDB": "off", "GOFLAGS": "-mod=mod", "GOTELEMETRY": "off"} {
+	for k, v := range map[string]string{"GOTOOLCHAIN": "local", "GOPROXY": "off", "GOSUMDB": "off", "GOFLAGS": "", "GOTELEMETRY": "off"} {
 		os.Setenv(k, v)
 	}
 }
